@@ -12,8 +12,9 @@ two-digit decimal sum with decimal carry (what the Spec means).
 BCD (`cmos_acv`), but N and Z follow the NMOS rule instead of the decimal result - a recorded
 KNOWN FINDING (existing tests pin the NMOS flags on the 65C02): `cmos_nz_deviation` proves it with
 the witness $99 + $01.
-Not proved here: the lifting of the kernel to every addressing mode and machine state (frame
-condition); that part is carried by the differential (all modes x all 2^17 triples in the thorough tier).
+The lifting of the kernel to every addressing mode and machine state (frame condition) is proved in
+`Props/C04b.lean` (`decimal_step_6502`, `decimal_step_65c02`, `adc/sbc_decimal_any_mode`); the decimal difference for
+valid BCD and the definitional part of `cmos_acv` are in `Props/C04c.lean`.
 -/
 import Mathlib.Tactic.IntervalCases
 import Py65.Proofs.Dec.Adc0
